@@ -59,5 +59,15 @@ claim("C16", "proof",
 claim("C05", "proof",
       "PARTIAL. On the specification: C05_reopen_spec / C05_reopen_reads (a reopen keeps the committed history and every autocommit read, drops open transactions), C05_reopen_inv, C05_later_write_wins (a write after a reopen gets a stamp above everything committed: it wins now and after every later reopen), also in a fresh process. On the concrete model of Load: C05_counter_covers (the process counter ends at or above every surviving sequence number whatever was opened before) and C05_cas_witness for the pin's counter rule. Not yet a theorem: that the surviving record per key is the newest committed version (record invariant through all operations); decided by the correspondence run over 1-3 databases with Close/Open and real process restarts (fresh OS processes), impl = model = spec.",
       "DESIGN.md §9 C05", SEQ_NOTE + "; multi-database process model in the driver (one global counter threaded through all databases)", SEQ_TECH + "; partial")
-for p in ["C04","C10","C11","C15","C17"]:
+claim("C10", "proof",
+      "PARTIAL. Proved: C10_continuation_exact (for every content, chunk size, list of root capacities, partial or all-or-nothing failures: a successful write stores exactly the source), C10_success_iff, C10_stream_complete (any split into stream chunks reassembles exactly), witness C10_duplicate_witness for the pin's replay rule. 'An error leaves no trace' rests on the order content / content record / version in store.Set (the version is the last step; part of the refinement model) and is decided by fault injection on the real code: reader errors and context cancellation at every chunk boundary through the gRPC client (expected: error + old value), reader errors and ENOSPC (partial and all-or-nothing, every subset of 2-3 roots) inline.",
+      "DESIGN.md §9 C10",
+      "Lean kernel; byte-prefix semantics of write(2) on ENOSPC and gRPC's surfacing of broken streams are modelled/trusted; FaultWrite/DiskFree hooks + extractor trusted",
+      "Lean 4 proof (induction over the retry loop; stream algebra) + skeleton tie + fault enumeration on the real code")
+claim("C11", "proof",
+      "PARTIAL. Proved: C11_error_class_single/none/priority (every single-sentinel error reaches the gRPC caller as that sentinel, anything else as ErrUnknown, for all wrappings since errors.Is is the only observation), C11_code_detail_agree, C11_iso_roundtrip, C11_chunk_roundtrip (any split of any content into Write calls yields chunks of at most the chunk size, none empty, that concatenate to the content). End-to-end indistinguishability is validated, not proved: the op files of the inline correspondence (C01 sizes across the chunk boundary, C02 all levels, C13 late use) are replayed through pkg/external against a real internal/app server on loopback and every answer compared with the specification; gRPC, protobuf, metadata and interceptors are not modelled.",
+      "DESIGN.md §9 C11",
+      "Lean kernel; gRPC/protobuf trusted (ordered reliable streams, status+details transport); extractor + harness trusted",
+      "Lean 4 proof (finite tables by decide, chunking by induction) + skeleton tie + differential replay through a real gRPC server")
+for p in ["C04","C15","C17"]:
     na(p, PENDING)
